@@ -18,7 +18,7 @@ EXPLANATION = ('dataflow classification of every binary read (size-checked unpac
 LEVEL_TEXT = ('decides only: no byte of a binary record is used unless a size-checked struct.unpack (or a length test that ends the loop) sees it first, with format size = read size '
               'symbolically; record-reading code is not wrapped in a handler that swallows the error; the three sfcf text layouts test the completeness of a correlator block before parsing '
               'its floats; json.gz / xml.gz / csv.gz are decompressed and parsed as whole documents. The behaviour of gzip / rapidjson / lxml on every cut is their contract and not decided.')
-TECHNIQUE = 'checked-use dataflow with symbolic struct sizes, dominance of parsing loops by raising guards, sibling rule'
+TECHNIQUE = 'checked-use dataflow with symbolic struct sizes (read / readinto byte counts compared with the record size), dominance of parsing loops by raising guards, extent computed behind the block terminator, sibling rule'
 
 READER_MODULES = ('input.openQCD', 'input.misc')
 
